@@ -10,6 +10,8 @@ import (
 	"encoding/base64"
 	"encoding/binary"
 	"fmt"
+	"sync"
+	"sync/atomic"
 	"testing"
 	"time"
 
@@ -104,6 +106,47 @@ func TestVfC12(t *testing.T) {
 			}
 		}
 		r.Eval(fmt.Sprintf("tok/%v/%v/%v", lvl, feat, rec.Lifetime != 0))
+	}
+	// ---- the authenticators serve all sessions at once: genuine tokens and forgeries (a genuine token's fields
+	// rewritten to another user at root level, its signature kept) are presented concurrently; a forgery must
+	// never pass and a genuine token must never fail, whatever the interleaving
+	{
+		gen, _, err := th.GenSecret(&auth.Rec{Uid: types.Uid(0x1111111111111111), AuthLevel: auth.LevelAuth})
+		if err == nil && len(gen) >= 18 {
+			forged := append([]byte{}, gen...)
+			for i := 0; i < 8; i++ {
+				forged[i] = byte(0x22 + i)
+			}
+			forged[12], forged[13] = byte(auth.LevelRoot), 0
+			var wg sync.WaitGroup
+			var forgedOK, genuineBad, calls int64
+			iters := r.Pick(20000, 200000)
+			for g := 0; g < 8; g++ {
+				wg.Add(1)
+				go func(g int) {
+					defer wg.Done()
+					for i := 0; i < iters && atomic.LoadInt64(&forgedOK) == 0 && atomic.LoadInt64(&genuineBad) == 0; i++ {
+						atomic.AddInt64(&calls, 1)
+						if g%2 == 0 {
+							if rec, _, err := th.Authenticate(gen, ""); err != nil || rec.Uid != types.Uid(0x1111111111111111) || rec.AuthLevel != auth.LevelAuth {
+								atomic.AddInt64(&genuineBad, 1)
+							}
+						} else if _, _, err := th.Authenticate(forged, ""); err == nil {
+							atomic.AddInt64(&forgedOK, 1)
+						}
+					}
+				}(g)
+			}
+			wg.Wait()
+			r.Hit("token_concurrent_authentication")
+			r.EvalN(atomic.LoadInt64(&calls))
+			if forgedOK > 0 {
+				r.Violation("token-forgery-accepted:concurrent", fmt.Sprintf("a token rewritten to another user at root level (signature of a genuine token) was accepted while genuine tokens were being checked concurrently (after %d calls)", calls), nil)
+			}
+			if genuineBad > 0 {
+				r.Violation("token-genuine-refused:concurrent", fmt.Sprintf("a genuine token was refused or mis-read while other tokens were being checked concurrently (after %d calls)", calls), nil)
+			}
+		}
 	}
 	// forged with the independent implementation
 	farFuture := uint32(time.Date(2090, 1, 1, 0, 0, 0, 0, time.UTC).Unix())
@@ -305,6 +348,22 @@ func TestVfC12(t *testing.T) {
 		check("wrong-password", la+":", false, 0)
 		check("other-users-password", la+":bobby-secret", false, 0)
 		check("unknown-login", "nosuch"+la+":alice-secret", false, 0)
+		// a password may contain the separator: only the whole of it authenticates
+		ud, _ := vfMkUser(auth.LevelAuth, nil, nil)
+		ld := fmt.Sprintf("dora%d%d", r.Batch(), i)
+		if _, err := bh.AddRecord(&auth.Rec{Uid: ud}, []byte(ld+":correct:horse:battery"), ""); err == nil {
+			check("password-with-separator", ld+":correct:horse:battery", true, ud)
+			for _, wrong := range []string{"correct", "correct:", "correct:horse", "correct:horse:", "correct:horse:batterx", "correct:other:battery", ":correct:horse:battery"} {
+				check("password-with-separator-prefix", ld+":"+wrong, false, 0)
+			}
+			if _, err := bh.UpdateRecord(&auth.Rec{Uid: ud}, []byte(ld+":new:pass:word"), ""); err == nil {
+				check("password-with-separator", ld+":new:pass:word", true, ud)
+				check("password-with-separator-prefix", ld+":new", false, 0)
+				check("password-with-separator-prefix", ld+":new:pass", false, 0)
+			}
+		} else {
+			r.Violation("basic-add-failed", "password containing ':' refused: "+err.Error(), nil)
+		}
 		// uniqueness regardless of case: create, IsUnique, rename
 		uc, _ := vfMkUser(auth.LevelAuth, nil, nil)
 		_, err := bh.AddRecord(&auth.Rec{Uid: uc}, []byte(upperFirst(la)+":another-secret"), "")
